@@ -172,7 +172,7 @@ fn simple_utf8_validation(v: &[u8]) -> Result<(), core::str::Utf8Error> {
 
 #[cfg(kani)]
 #[kani::proof]
-#[kani::unwind(8)]
+#[kani::unwind(5)]
 #[kani::stub(core::str::validations::run_utf8_validation, simple_utf8_validation)]
 fn qpack_decode_litlit_small() {
     const N: usize = 6;
@@ -189,3 +189,194 @@ fn qpack_decode_litlit_small() {
     }
     core::mem::forget(r);
 }
+
+#[cfg(kani)]
+fn pick(sel: u8, exact: &'static str) -> Option<&'static str> {
+    match sel { 0 => None, 1 => Some(exact), _ => Some("x") }
+}
+
+#[cfg(kani)]
+#[kani::proof]
+#[kani::unwind(13)]
+fn session_request_admission() {
+    use headers::Headers;
+    use session::{SessionRequest, HeadersParseError};
+    let s: [u8; 5] = kani::any();
+    let mut i = 0; while i < 5 { kani::assume(s[i] < 3); i += 1; }
+    let names = [":method", ":scheme", ":protocol", ":authority", ":path"];
+    let exact = ["CONNECT", "https", "webtransport", "a", "/"];
+    let mut h: Headers = core::iter::empty::<(&str, &str)>().collect();
+    let mut k = 0;
+    while k < 5 { if let Some(v) = pick(s[k], exact[k]) { h.insert(names[k], v); } k += 1; }
+    let r = SessionRequest::try_from(h);
+    let admit = s[0] == 1 && s[1] == 1 && s[2] == 1 && s[3] != 0 && s[4] != 0;
+    assert!(r.is_ok() == admit);
+    match &r {
+        Err(HeadersParseError::MissingMethod) => assert!(s[0] == 0),
+        Err(HeadersParseError::MethodNotConnect) => assert!(s[0] == 2),
+        Err(HeadersParseError::MissingScheme) => assert!(s[0] == 1 && s[1] == 0),
+        _ => {}
+    }
+    core::mem::forget(r);
+}
+
+
+#[cfg(kani)]
+#[kani::proof]
+#[kani::unwind(14)]
+fn session_request_admission_b() {
+    use headers::Headers;
+    use session::{SessionRequest, HeadersParseError};
+    let s: [u8; 5] = kani::any();
+    let mut i = 0; while i < 5 { kani::assume(s[i] < 3); i += 1; }
+    // keep within the model map capacity explicitly: at most 4 present
+    let present = (s[0] != 0) as u8 + (s[1] != 0) as u8 + (s[2] != 0) as u8 + (s[3] != 0) as u8 + (s[4] != 0) as u8;
+    kani::assume(present <= 4);
+    let names = [":method", ":scheme", ":protocol", ":authority", ":path"];
+    let exact = ["CONNECT", "https", "webtransport", "a", "/"];
+    let mut h: Headers = core::iter::empty::<(&str, &str)>().collect();
+    let mut k = 0;
+    while k < 5 { if let Some(v) = pick(s[k], exact[k]) { h.insert(names[k], v); } k += 1; }
+    let r = SessionRequest::try_from(h);
+    let code: u8 = match &r {
+        Ok(_) => 0,
+        Err(HeadersParseError::MissingMethod) => 1,
+        Err(HeadersParseError::MethodNotConnect) => 2,
+        Err(HeadersParseError::MissingScheme) => 3,
+        Err(HeadersParseError::SchemeNotHttps) => 4,
+        Err(HeadersParseError::MissingProtocol) => 5,
+        Err(HeadersParseError::ProtocolNotWebTransport) => 6,
+        Err(HeadersParseError::MissingAuthority) => 7,
+        Err(HeadersParseError::MissingPath) => 8,
+        Err(_) => 9,
+    };
+    core::mem::forget(r);
+    let expect: u8 = if s[0] == 0 { 1 } else if s[0] == 2 { 2 } else if s[1] == 0 { 3 } else if s[1] == 2 { 4 }
+        else if s[2] == 0 { 5 } else if s[2] == 2 { 6 } else if s[3] == 0 { 7 } else if s[4] == 0 { 8 } else { 0 };
+    assert!(code == expect);
+}
+
+#[cfg(kani)]
+#[kani::proof]
+#[kani::unwind(14)]
+fn session_request_admission_c() {
+    use headers::Headers;
+    use session::{SessionRequest, HeadersParseError};
+    let s: [u8; 5] = [1, 2, 0, 1, 2];
+    let names = [":method", ":scheme", ":protocol", ":authority", ":path"];
+    let exact = ["CONNECT", "https", "webtransport", "a", "/"];
+    let mut h: Headers = core::iter::empty::<(&str, &str)>().collect();
+    let mut k = 0;
+    while k < 5 { if let Some(v) = pick(s[k], exact[k]) { h.insert(names[k], v); } k += 1; }
+    assert!(h.get(":method") == Some("CONNECT"));
+    assert!(h.get(":scheme") == Some("x"));
+    assert!(h.get(":protocol").is_none());
+    assert!(h.get(":path") == Some("x"));
+    let r = SessionRequest::try_from(h);
+    let code: u8 = match &r {
+        Ok(_) => 0,
+        Err(HeadersParseError::MissingMethod) => 1,
+        Err(HeadersParseError::MethodNotConnect) => 2,
+        Err(HeadersParseError::MissingScheme) => 3,
+        Err(HeadersParseError::SchemeNotHttps) => 4,
+        Err(HeadersParseError::MissingProtocol) => 5,
+        Err(HeadersParseError::ProtocolNotWebTransport) => 6,
+        Err(HeadersParseError::MissingAuthority) => 7,
+        Err(HeadersParseError::MissingPath) => 8,
+        Err(_) => 9,
+    };
+    core::mem::forget(r);
+    kani::cover!(code == 0); kani::cover!(code == 1); kani::cover!(code == 2); kani::cover!(code == 3); kani::cover!(code == 4);
+    kani::cover!(code == 5); kani::cover!(code == 6); kani::cover!(code == 7); kani::cover!(code == 8); kani::cover!(code == 9);
+    assert!(code == 4);
+}
+
+#[cfg(kani)]
+#[kani::proof]
+#[kani::unwind(14)]
+fn session_request_admission_d() {
+    use headers::Headers;
+    use session::{SessionRequest, HeadersParseError};
+    let s: [u8; 5] = kani::any();
+    let mut i = 0; while i < 5 { kani::assume(s[i] < 3); i += 1; }
+    // keep within the model map capacity explicitly: at most 4 present
+    let present = (s[0] != 0) as u8 + (s[1] != 0) as u8 + (s[2] != 0) as u8 + (s[3] != 0) as u8 + (s[4] != 0) as u8;
+    kani::assume(present <= 4);
+    let names = [":method", ":scheme", ":protocol", ":authority", ":path"];
+    let exact = ["CONNECT", "https", "webtransport", "a", "/"];
+    let mut h: Headers = core::iter::empty::<(&str, &str)>().collect();
+    let mut k = 0;
+    while k < 5 { if let Some(v) = pick(s[k], exact[k]) { h.insert(names[k], v); } k += 1; }
+    let r = SessionRequest::try_from(h);
+    let code: u8 = match &r {
+        Ok(_) => 0,
+        Err(HeadersParseError::MissingMethod) => 1,
+        Err(HeadersParseError::MethodNotConnect) => 2,
+        Err(HeadersParseError::MissingScheme) => 3,
+        Err(HeadersParseError::SchemeNotHttps) => 4,
+        Err(HeadersParseError::MissingProtocol) => 5,
+        Err(HeadersParseError::ProtocolNotWebTransport) => 6,
+        Err(HeadersParseError::MissingAuthority) => 7,
+        Err(HeadersParseError::MissingPath) => 8,
+        Err(_) => 9,
+    };
+    core::mem::forget(r);
+    let expect: u8 = if s[0] == 0 { 1 } else if s[0] == 2 { 2 } else if s[1] == 0 { 3 } else if s[1] == 2 { 4 }
+        else if s[2] == 0 { 5 } else if s[2] == 2 { 6 } else if s[3] == 0 { 7 } else if s[4] == 0 { 8 } else { 0 };
+    if expect == 0 { assert!(code == 0); }
+    if expect == 1 { assert!(code == 1); }
+    if expect == 2 { assert!(code == 2); }
+    if expect == 3 { assert!(code == 3); }
+    if expect == 4 { assert!(code == 4); }
+    if expect == 5 { assert!(code == 5); }
+    if expect == 6 { assert!(code == 6); }
+    if expect == 7 { assert!(code == 7); }
+    if expect == 8 { assert!(code == 8); }
+    kani::cover!(code == 9);
+}
+
+
+#[cfg(kani)]
+#[kani::proof]
+#[kani::unwind(14)]
+fn session_request_admission_e() {
+    use headers::Headers;
+    use session::{SessionRequest, HeadersParseError};
+    let s: [u8; 5] = kani::any();
+    let mut i = 0; while i < 5 { kani::assume(s[i] < 3); i += 1; }
+    // keep within the model map capacity explicitly: at most 4 present
+    let present = (s[0] != 0) as u8 + (s[1] != 0) as u8 + (s[2] != 0) as u8 + (s[3] != 0) as u8 + (s[4] != 0) as u8;
+    kani::assume(present <= 4);
+    let names = [":method", ":scheme", ":protocol", ":authority", ":path"];
+    let exact = ["CONNECT", "https", "webtransport", "a", "/"];
+    let mut h: Headers = core::iter::empty::<(&str, &str)>().collect();
+    let mut k = 0;
+    while k < 5 { if s[k] == 1 { h.insert(names[k], exact[k]); } else if s[k] == 2 { h.insert(names[k], "x"); } k += 1; }
+    let r = SessionRequest::try_from(h);
+    let code: u8 = match &r {
+        Ok(_) => 0,
+        Err(HeadersParseError::MissingMethod) => 1,
+        Err(HeadersParseError::MethodNotConnect) => 2,
+        Err(HeadersParseError::MissingScheme) => 3,
+        Err(HeadersParseError::SchemeNotHttps) => 4,
+        Err(HeadersParseError::MissingProtocol) => 5,
+        Err(HeadersParseError::ProtocolNotWebTransport) => 6,
+        Err(HeadersParseError::MissingAuthority) => 7,
+        Err(HeadersParseError::MissingPath) => 8,
+        Err(_) => 9,
+    };
+    core::mem::forget(r);
+    let expect: u8 = if s[0] == 0 { 1 } else if s[0] == 2 { 2 } else if s[1] == 0 { 3 } else if s[1] == 2 { 4 }
+        else if s[2] == 0 { 5 } else if s[2] == 2 { 6 } else if s[3] == 0 { 7 } else if s[4] == 0 { 8 } else { 0 };
+    if expect == 0 { assert!(code == 0); }
+    if expect == 1 { assert!(code == 1); }
+    if expect == 2 { assert!(code == 2); }
+    if expect == 3 { assert!(code == 3); }
+    if expect == 4 { assert!(code == 4); }
+    if expect == 5 { assert!(code == 5); }
+    if expect == 6 { assert!(code == 6); }
+    if expect == 7 { assert!(code == 7); }
+    if expect == 8 { assert!(code == 8); }
+    kani::cover!(code == 9);
+}
+
